@@ -25,9 +25,12 @@ def run(rep, tier):
     inv = cx.inventory()
     sites, reach = inv.run(roots)
     rep.analysed(*sorted(reach))
+    from dispatch import thir_reach
+    ptr_helpers = thir_reach(F, ["helpers::memfrob", "helpers::strcmp"])      # the two helpers that take pointers, and private functions they read through
     rows = [
-        Row("ptr-ubcheck", r"^helpers::(memfrob|strcmp)$", r"^NullPointerDereference\(\)$", "D4",
-            "pointer precondition: the helper's pointer arguments address readable (memfrob: writable) memory"),
+        Row("ptr-ubcheck", r"^helpers::\w+$", r"^NullPointerDereference\(\)$", "D4",
+            "pointer precondition: the helper's pointer arguments address readable (memfrob: writable) memory",
+            pred=lambda site: site.fn in ptr_helpers),
         Row("ptr-walk", r"^helpers::(memfrob|strcmp)$", r"^Overflow\(Add\)\((arg1<u64>|mut<u64>),", "D4",
             "pointer precondition: ptr .. ptr+len (resp. the NUL-terminated string) lies in the address space, so the address does not wrap"),
         Row("stdout", r"^helpers::bpf_trace_printf$", r"^stdout:", "A",
@@ -345,7 +348,23 @@ def _strcmp_scan(F, ev):
                     vs = [x.get("name") for x in walk(st_["init"]) if x.get("k") in ("var", "upvar")]
                     lets.append((st_["pat"]["name"], st_["pat"].get("ty"), vs, any(x.get("k") == "deref" for x in walk(st_["init"]))))
     cur = [next((nm for nm, ty, vs, d in lets if ty == "u64" and vs == [pn] and not d), None) for pn in pnames0[:2]]
-    val = [next((nm for nm, ty, vs, d in lets if ty == "u8" and vs == [c] and d), None) for c in cur]
+    # a byte variable is one whose initialiser, evaluated with its cursor at A, is the byte at A (read directly or
+    # through a small private function)
+    def reads_through(init, c):
+        if c is None or c not in ids:
+            return False
+        try:
+            r = [v for v, s2 in ev.ev(init, symex.St().set((owner, ids[c]), T.V("A", 64)), "helpers::strcmp") if s2.feasible]
+        except Exception:
+            return False
+        return r == [("load", 8, T.V("A", 64))]
+    inits_by_name = {}
+    for n in walk(body):
+        if n.get("k") == "block":
+            for st_ in n["stmts"]:
+                if st_["k"] == "let" and st_["pat"].get("k") == "bind" and st_.get("init"):
+                    inits_by_name[st_["pat"]["name"]] = st_["init"]
+    val = [next((nm for nm, ty, vs, d in lets if ty == "u8" and vs == [c] and (d or reads_through(inits_by_name.get(nm), c))), None) for c in cur]
     if None not in cur:
         okb = _strcmp_scan_reading_loop(F, ev, fn, loops[0], ids, cur)
         if okb is not None:
@@ -388,7 +407,7 @@ def _strcmp_scan(F, ev):
             for st2 in n["stmts"]:
                 if st2["k"] == "let" and st2["pat"].get("k") == "bind" and st2["pat"]["name"] in want_names and st2.get("init"):
                     vs = [x.get("name") for x in walk(st2["init"]) if x.get("k") in ("var", "upvar")]
-                    src[st2["pat"]["name"]] = (vs, any(x.get("k") == "deref" for x in walk(st2["init"])))
+                    src[st2["pat"]["name"]] = (vs, any(x.get("k") == "deref" for x in walk(st2["init"])) or (len(vs) == 1 and reads_through(st2["init"], vs[0])))
     want_src = {want_names[0]: ([pnames[0]], False), want_names[1]: ([pnames[1]], False), want_names[2]: ([want_names[0]], True), want_names[3]: ([want_names[1]], True)}
     if src != want_src:
         return False, "initial values: %s" % src
